@@ -60,3 +60,7 @@ func init() {
 func init() { engines["NT"] = engineNT }
 
 func init() { engines["MO"] = engineMO }
+
+func init() { engines["SE"] = engineSE }
+
+func init() { engines["PAIR"] = enginePAIR }
